@@ -2,7 +2,8 @@
 //! written to anonymous temporary files.  A leading tag in the case selects the routine:
 //!   (0 file a b depth (alphabet ops) (extra op sequences))   FileView on [a,b) and on the isolated range
 //!   (1 file (n ...))                                         chunker for every chunk count n, with line streams
-//!   (2 ((chrom len) ...) final_newline)                      index_chroms on a synthesised BED file
+//!   (2 ((chrom len) ...) final_newline [filler])             index_chroms on a synthesised BED file; filler 1 pads the
+//!                                                             lines with the two-byte character U+00E9 instead of 'x'
 //! ops: (0 n) read n bytes | (1 k) seek Start(k) | (2 d) seek Current(d) | (3 d) seek End(d)
 use bigtools::bed::indexer::index_chroms;
 use bigtools::utils::file_view::FileView;
@@ -144,7 +145,7 @@ fn run_chunker(c: &S) -> S {
 }
 
 // ------------------------------------------------------------------ indexer
-fn synth(lines: &[S], final_newline: bool) -> Option<Vec<u8>> {
+fn synth(lines: &[S], final_newline: bool, filler: u64) -> Option<Vec<u8>> {
     let mut out = vec![];
     for (i, l) in lines.iter().enumerate() {
         let (c, len) = (l.at(0).u64(), l.at(1).usize());
@@ -160,7 +161,18 @@ fn synth(lines: &[S], final_newline: bool) -> Option<Vec<u8>> {
         out.extend_from_slice(body.as_bytes());
         if content > body.len() {
             out.push(b'\t');
-            out.extend(std::iter::repeat(b'x').take(content - body.len() - 1));
+            let k = content - body.len() - 1;
+            if filler == 1 {
+                // non-ASCII text in the name column: k/2 two-byte characters, one ASCII byte if k is odd
+                for _ in 0..k / 2 {
+                    out.extend_from_slice("\u{e9}".as_bytes());
+                }
+                if k % 2 == 1 {
+                    out.push(b'x');
+                }
+            } else {
+                out.extend(std::iter::repeat(b'x').take(k));
+            }
         }
         if nl {
             out.push(b'\n');
@@ -176,7 +188,8 @@ fn chrom_id(name: &[u8]) -> S {
     }
 }
 fn run_indexer(c: &S) -> S {
-    let bytes = match synth(c.at(1).l(), c.at(2).bool()) {
+    let filler = if c.l().len() > 3 { c.at(3).u64() } else { 0 };
+    let bytes = match synth(c.at(1).l(), c.at(2).bool(), filler) {
         Some(b) => b,
         None => return sl![a(9)],
     };
